@@ -12,1098 +12,1046 @@ Definition show_fres (r : fres) : string :=
   end.
 Definition check (rs : list rune) : string := digest (show_fres (format_res rs)).
 Definition full (rs : list rune) : string := show_fres (format_res rs).
-Eval vm_compute in ("<<<M1346>>>" ++ check (runes_of_ascii "// top
-options // c0
-{ // c1
-LittleEndian // c2
-= false
-    // c4
-; // c5
-ArrayPrefixLenType // c6
-=
-    // c7
-u8
-    // c8
-; // c9
-FixedStringPadFromLeft // c10
-= // c11
-true // c12a
-  // c12b
-; FixedStringPadChar // c14a
-  // c14b
-=
-    // c15
-'0'
-    // c16
-; // c17a
-  // c17b
-} // c18
-packet Heartbeat // c20
-{
-    // c21
-string lastPx , // c24
-uint8 // c25a
-  // c25b
-Qty // c26
-, // c27
-i64 Acct // c29
-,
-    // c30
-char[ // c31
-4
-    // c32
-]
-    // c33
-Ref , } // c36
-packet // c37a
-  // c37b
-Fill // c38a
-  // c38b
-{ // c39a
-  // c39b
-uint8
-    // c40
-Ref
-    // c41
-, // c42a
-  // c42b
-Heartbeat // c43
-,
-    // c44
-f32 // c45
-OrderId , // c47
-repeat // c48a
-  // c48b
-f32 // c49
-x // c50a
-  // c50b
-, } // c52
-root // c53
-packet // c54a
-  // c54b
-Order
-    // c55
-{ // c56a
-  // c56b
-zchar[ // c57a
-  // c57b
-2
-    // c58
-]
-    // c59
-OrderId // c60a
-  // c60b
-,
-    // c61
-zchar[ // c62
-2 // c63
-] // c64
-Acct
-    // c65
-,
-    // c66
-zchar[ // c67
-1
-    // c68
-]
-    // c69
-Note // c70a
-  // c70b
-, // c71a
-  // c71b
-zchar[
-    // c72
-9 ] Qty // c75a
-  // c75b
-,
-    // c76
-string // c77a
-  // c77b
-price // c78a
-  // c78b
-,
-    // c79
-string
-    // c80
-tag7 , u32
-    // c83
-x
-    // c84
-,
-    // c85
-match // c86
-x // c87a
-  // c87b
-as Body // c89a
-  // c89b
-{ // c90
-123 // c91
-:
-    // c92
-Fill , // c94
-112 // c95
-:
-    // c96
-Heartbeat // c97a
-  // c97b
-, // c98a
-  // c98b
-} // c99
-, // c100a
-  // c100b
-u32
-    // c101
-seqNo // c102
-@calculatedFrom( // c103
-""CRC32"" // c104
-)
-    // c105
-,
-    // c106
-}
-    // c107
-")).
-Eval vm_compute in ("<<<M282>>>" ++ check (runes_of_ascii "// a // b
-packet stringy	{
-string zchar ,
-    repeat T
-, match
-u
-as  charz {
-007
-    //x
-    :
-//	t
-// @lengthOf(
-float// trailing space 
-,""\" ++ [233]%N ++ runes_of_ascii """ : Logon ""a	b"":
-//	t
-//	t
-pack, } , match uint8x as
-    // " ++ [27880; 37322]%N ++ runes_of_ascii "
-    roots
-{
-1
-    // `tick` ""quote"" 'q'
-    : len
-,	}
-//x
-// " ++ [27880; 37322]%N ++ runes_of_ascii "
-, }packet zchar {	roots options1
-    //x
-    `// not a comment` , int64 As
-,
-    i16 float
-    @lengthOf( falsey
-    // " ++ [27880; 37322]%N ++ runes_of_ascii "
-    ) `a\`
-    , int64 msg_type `tab	here`
-, @tag(0
-    // `tick` ""quote"" 'q'
-    ) repeat uint8x ,
-    @lengthOf(x
-    ) repeat metadata
-    , zchar[ 0 ]	int , uint64
-    zchar ,zchar[7 // " ++ [27880; 37322]%N ++ runes_of_ascii "
-]
-msg_type
-,
-@calculatedFrom(
-/// triple
-// " ++ [27880; 37322]%N ++ runes_of_ascii "
-""" ++ [28040; 24687]%N ++ runes_of_ascii """ ) crc
-, }
-root packet zchar { repeat
-leftPad,
-} packet
-A{
-@lengthOf(
-    string_ )	x@lengthOf( options1) `two words`,  string
-len ,	}packet	falsey{ i64_ @calculatedFrom(	""{,}"" ) , repeat
-string chars
-, zchar[ 7]calculatedFrom
-, Header
-    { char u`two words`, repeat char[] // c
-tag
-    `say ""hi""`	, Z9_
-    @lengthOf(
-T ) `line1
-line2` , } , msg_type @calculatedFrom( ""// no comment""
-    ) , @rightPad (// packet A { u8 x, }
-'\x00' )
-@lengthOf( asx )
-falsey
-,
-    } // packet A { u8 x, }")).
-Eval vm_compute in ("<<<M1341>>>" ++ check (runes_of_ascii "options {
-    FixedStringPadFromLeft = true;
-    FixedStringPadChar = '0';
-}
-packet Leg {
-    InPrice0 {
-        repeat string clOrdID,
-        int16 msgKind,
-        zchar[5] Px,
-    },
-    i16 f1,
-    repeat f64 Side2,
-    string Acct,
-}
-packet Cancel {
-    zchar[4] clOrdID,
-    string seqNo,
-    Leg,
-    @leftPad('0') char[11] OrderId,
-}
-packet Quote {
-    repeat char[4] sym,
-    f64 OrderId,
-    repeat Leg,
-    repeat i64 f1,
-    int16 Note,
-    zchar[3] count,
-}
-root packet Ack {
-    @leftPad(' ') char[10] sym,
-    InPx60 {
-        Cancel,
-        repeat char[1] f1,
-        string Tail,
-        repeat InNote55 {
-            int8 count,
-            f64 f1,
-            repeat Cancel,
-        },
-        char[] tag7,
-        repeat string msgKind,
-    },
-    u8 lastPx,
-    match lastPx as Body {
-        152 : Quote,
-        173 : Cancel,
-        4 : Leg,
-    },
-    u16 Ref @calculatedFrom(""CRC32""),
-}
-")).
-Eval vm_compute in ("<<<M1371>>>" ++ check (runes_of_ascii "options {
-    FixedStringPadFromLeft = true;
-    FixedStringPadChar = '0';
-}
-packet Leg {
-    repeat InSym93 {
-        zchar[3] Acct,
-        string Side2,
-        i32 Flags,
-        f32 Note,
-        i32 msgKind,
-    },
-    f64 Note,
-    uint16 Px,
-}
-packet Quote {
-    zchar[2] OrderId,
-}
-packet Ack {
-    repeat string lastPx,
-    zchar[4] price,
-    uint32 OrderId,
-    Quote,
-    int8 Acct,
-}
-packet Fill {
-    repeat Leg,
-    @rightPad('0') char[11] Note,
-    f64 Px,
-    @rightPad('\x00') char[5] Flags,
-    zchar[9] x,
-    string msgKind,
-}
-root packet Order {
-    Leg,
-    repeat Ack,
-    @rightPad('\x00') char[3] Side2,
-    repeat char[1] seqNo,
-    u16 clOrdID,
-    match clOrdID as Body {
-        198 : Leg,
-        23 : Quote,
-        13 : Ack,
-        159 : Fill,
-    },
-    u32 venue @calculatedFrom(""CRC32""),
-}
-")).
-Eval vm_compute in ("<<<M1365>>>" ++ check (runes_of_ascii "
-options{	StringPrefixLenType=
-
-u8 
-;
-ArrayPrefixLenType=
-
-u32
-
-    ;  FixedStringPadFromLeft
-=
-true ;
-	FixedStringPadChar =
-
-    ' '
-; 
-}packet 
-Leg	{  }
-packet Heartbeat	{ 
-zchar[6
-    ]	msgKind
-    ,
-    @rightPad ( '0' )
-char[3
-]
-Qty , zchar[ 9]Side2
-
-,i8 Acct ,
-	}
-
-packet
-Logout
-{
-	int8
-
-x
-,
-} packet Order {
-    char[]Acct
-	, zchar[8 ] count
-
-    ,	u32 OrderId
-,	uint8 lastPx	,
-
-    u16 clOrdID
-,
-	zchar[ 7]Note, 
-}	root 
-packet
-	Reject {@leftPad (	' '
-) 
-char[ 
-8] 
-Side2, i8 clOrdID ,
-	repeat	f32
-x
-
-    ,
-
-    u32
-
-    lastPx
-
-, match	lastPx
-
-    as
-
-Body
-    {
-    [
-
-    30
-
-    ,
-	147 
-]	:
-
-Heartbeat ,	134 : 
-Leg  , 183
-
-:  Logout	,
-
-    40	:  Order
-, } 
-, 
-u16
-Ref@calculatedFrom(
-""CRC32""
-
-    ), 
-}
-")).
-Eval vm_compute in ("<<<M1658>>>" ++ check (runes_of_ascii "options {
-}
-
-packet i8i8 {
-    @tag(3)
-    x @calculatedFrom(""it's""),
-    @lengthOf(f32a)
-    match rootA as uint8x {
-        0 : string_,
-        42 : Packet,
-    },
-    @leftPad('\x00')
-    i64_ packetx `u8 x,`,
-    @calculatedFrom(""x y"")
-    matchKey {
-        len,
-    },
-    @lengthOf(matchKey)
-    @calculatedFrom(""abc"")
-    @lengthOf(x_y_z)
-    /// triple
-    repeat metadata `line1
-    line2`,
-    lengthOf repeatCount,/// triple
-    int32 roots @calculatedFrom(""`tick`"") `" ++ [233]%N ++ runes_of_ascii "`,
-    zchar[1] Packet @calculatedFrom(""// no comment""),
-}
-
-packet options1 {
-    @lengthOf(uint8x)
-    A @calculatedFrom(""it's"") `doc`,
-}
-
-root packet crc {
-    char[65535] chars,
-}")).
-Eval vm_compute in ("<<<M366>>>" ++ check (runes_of_ascii "packet
-// @lengthOf(
-//	t
-f32a { char[] Header`" ++ [233]%N ++ runes_of_ascii "` ,  @tag( 00
-) zchar[ 255  ] int
-    , @lengthOf(	trueish)
-x @calculatedFrom( """ ++ [128512]%N ++ runes_of_ascii """
-    )`say ""hi""` , @leftPad
-    (	'\x00'
-) @lengthOf( //	t
-u128 )//	t
-repeat BodyLength ,
-falsey @lengthOf( uint8x ), //
-@lengthOf( rootA) repeat uint8 T  `a\` , repeat  string
-lengthOf
-`it's` , @leftPad(
-    '\x00' )
-zchar[ 42
-// packet A { u8 x, }
-// a // b
-] u`say ""hi""` ,// a // b
-repeat packetx
-// a // b
-// packet A { u8 x, }
-{
-Pad  f32a
-,// trailing space 
-i8i8 msg_type `say ""hi""` , i64_ repeatCount , char[]chars , } ,}MetaData _x
-{  x matchKey `" ++ [28040; 24687; 31867; 22411]%N ++ runes_of_ascii "`, }")).
-Eval vm_compute in ("<<<M1427>>>" ++ check (runes_of_ascii "
-
-  options
-	{StringPrefixLenType	= u8
-
-; ArrayPrefixLenType 
-=
-
-u8
-	; FixedStringPadFromLeft  =  false	;
-FixedStringPadChar = ' ';
-
-    }  packet
-Ack
-
-{ char[]
-
-    tag7	,
-
-    }packet Reject
-
-{
-	InSym61
-
-{
-	repeat  Ack
-
-    ,zchar[
-    4 ]
-	f1, } ,}
-packet Logout	{ char[ 4	]
-    clOrdID
-
-,} root  packet	Cancel	{
-@leftPad
-( ' '
-) 
-char[ 
-10
-    ] price  ,
-	u8
-x ,
-    u32
-    venue @lengthOf(	Body ), match 
-x as	Body
-{[ 92 ,
-	175
-	]:
-Logout
-
-,26
-:	Reject,
-
-    144
-:Ack
-
-    , 
-}  ,u16
-
-count	@calculatedFrom( ""CRC32""
-	)	,
-} ")).
-Eval vm_compute in ("<<<M1885>>>" ++ check (runes_of_ascii "
-MetaData BodyLength{zchar[	65535
-	]	As
-	`crlf
-line`,	u16 charz
-
-    ,body
-
-len , zchar	msg_type ,
-	uint64	metadata,
-
-} root 
-packet	//
-      matchKey
-
-{ 
-repeat
-i8i8 `{ , }`
-
-, } MetaData
-
-a1
-{	i8i8
-
-    Pad 
-`it's` 
-, 
-  // trailing space 
-
-// `tick` ""quote"" 'q'
-	int64
-	    // " ++ [128512]%N ++ runes_of_ascii " emoji
-  roots
-`doc`  ,Foo
-
-    BodyLength`u8 x,`
-	,
-}
-    packet _x{lengthOf
-
-{
-pack `" ++ [28040; 24687; 31867; 22411]%N ++ runes_of_ascii "`	,
-    string_	// @lengthOf(
-
-  ,
-
-repeat  //
-
-rootA len
-
-, 
-zchar[
-    1 ]
-u8x
-    ,	}, }
-
-")).
-Eval vm_compute in ("<<<M1641>>>" ++ check (runes_of_ascii "packet metadata {
-    @rightPad()
-    zchar[0123456789] i64_ @calculatedFrom(""\n""),
-    @leftPad(' ')
-    zchar[255] MetaDataX `{ , }`,
-    @rightPad(' ')
-    @calculatedFrom(""abc"")
-    // " ++ [128512]%N ++ runes_of_ascii " emoji
-    @lengthOf(matchKey)
-    repeat char[42] packetx `" ++ [233]%N ++ runes_of_ascii "`,
-    trueish @calculatedFrom(""packet"") `a\`,
-    matchKey int `" ++ [28040; 24687; 31867; 22411]%N ++ runes_of_ascii "`,
-    @tag(0)
-    len {
-        char[65535] Header,
-    },
-    @lengthOf(f32a)
-    zchar[10] trueish `crlf
-    line`,
-}")).
-Eval vm_compute in ("<<<M1675>>>" ++ check (runes_of_ascii "
-packet
-	a1
-{	char[]
-
-charz
-    @calculatedFrom( 
-	//x
-
-	""" ++ [28040; 24687]%N ++ runes_of_ascii """)	, uint8x `crlf
-line` 
-,
-
-    uint64 
-T `line1
+Eval vm_compute in ("<<<M11>>>" ++ check (runes_of_ascii "root packet repeatCount
+    {repeat tag As  , Logon @calculatedFrom(
+""it's"" )
+, @calculatedFrom( ""`tick`""
+) string uint8x , repeat /// triple
+Pad u8x `line1
 line2`
-, @leftPad(
-'0' ) 
-	// a // b
-		/// triple
-    	@calculatedFrom(""abc"" )
-@tag(3 ) match
-
-    int// a // b
-    	as len {  0 :chars
-	,	[ 10
-
-    ,
-	""a\\""  ,
-1  , 0  ,
-10
-,
-
-0]
-: 
-body ,
-
-    007 
-: 
-    // a // b
-		rootA  // a // b
-  , }
-    ,falsey options1 ,} ")).
-Eval vm_compute in ("<<<M1545>>>" ++ check (runes_of_ascii "// top
-root packet _x {
-    // c3
-    match Foo as Z9_ {
-        // c8
-        ""a	b"" : Pad,
-        // c12
-    },// c14
-    repeat x `line1
-    line2`,// c18
-    @rightPad(' ')
-    // c22
-    @calculatedFrom(""a\\"")
-    // c25
-    metadata MetaDataX,// c28
-    @tag(0)
-    // c31
-    Logon int ``,// c35
-}// c36
-
-options {
-    // c38
-    T = '\x00'// c41
-}// c42")).
-Eval vm_compute in ("<<<M285>>>" ++ check (runes_of_ascii "packet zchar { @calculatedFrom(
-    ""packet"" )
-    @lengthOf( body ) @lengthOf(A )
-    repeat /// triple
-u128
-    { f32a
-chars `` , repeat x_y_z `tab	here`	, // c
-} , // " ++ [27880; 37322]%N ++ runes_of_ascii "
-repeat
-Logon {// " ++ [27880; 37322]%N ++ runes_of_ascii "
-u@calculatedFrom( // `tick` ""quote"" 'q'
-""// no comment"") //
-`two words` , char
-    u8x , uint32  uint8x  , } , int8
-    asx ``,}
-")).
-Eval vm_compute in ("<<<M1542>>>" ++ check (runes_of_ascii "
-// top
-packet // c0
-  	Inner // c1
-	{ 	 // c2
-	  u8// c3a
-    // c3b
-	a	// c4
-
-, 
-    // c5
-
-	} 	 // c6
-  root // c7
-packet// c8a
-// c8b
-    	P  // c9
-
-{  // c10a
-  // c10b
-	repeat // c11a
-
-	// c11b
-Inner  items // c13
-    , // c14
-    	u8 
-
-    // c15
-
-x ,	// c17a
-
-  // c17b
-    } // c18
-")).
-Eval vm_compute in ("<<<M1322>>>" ++ check (runes_of_ascii "packet
-
-    P1
-    { u8
-
-    a 
-,
-} packet
-
-P2  { 
-P1
-	,
-    }  packet	P3 {	P2  ,
-
-P1	,}
-	packet  P4
-
-{ 
-repeat  P3
-	,
-
-P2,
-
-}root
-
-    packet
-    P5 {
-P4,
-
-    P3
-
-,
-
-    P1 , u8	K
-    ,match
-    K as Body {
-	4:P4 ,
-3
-
-: P3 ,
-	2 : P2 , 1
-: P1	,
-}	,  }")).
-Eval vm_compute in ("<<<M1385>>>" ++ check (runes_of_ascii "packet Sub {
-    u8 a,
-    @calculatedFrom(""CRC16"") i32 SubSum,
-}
-root packet Frame {
-    u16 MsgType,
-    u16 BodyLen @lengthOf(Body),
-    Sub Body,
-    string note,
-    @calculatedFrom(""CRC16"") i32 Checksum,
-    u8 tail,
-}
-")).
-Eval vm_compute in ("<<<M1927>>>" ++ check (runes_of_ascii "// top
-MetaData uint8x {
-    // c2
-    char[] f32a `// not a comment`,// c6
-    float32 roots,// c9
-    char[7] u8x,// c14
-    zchar[10] f32a,// c19
-    u64 pack,// c22
-    u16 pack,// c25
-}// c26")).
-Eval vm_compute in ("<<<M309>>>" ++ check (runes_of_ascii "packet
+,@leftPad( )char[
+    007
+    ] string_
+    , @lengthOf(Packet ) repeat
+    int8 Header `it's`,
     // `tick` ""quote"" 'q'
-    _x {//
-repeat zchar[ 1 ] metadata
-    ,@leftPad
-    ( ' ' ) @lengthOf( T )@lengthOf(
-Z9_ )
-    char[] As// @lengthOf(
-,string f32a  , }
-")).
-Eval vm_compute in ("<<<M145>>>" ++ check (runes_of_ascii "MetaData //x
-Packet
-/// triple
-// " ++ [27880; 37322]%N ++ runes_of_ascii "
-{	u
-/// triple
-// c
-lengthOf `say ""hi""`
-    , } MetaData metadata {
-    crc chars `crlf
-line` , asx f32a /// triple
-,
-}
-
-")).
-Eval vm_compute in ("<<<M1664>>>" ++ check (runes_of_ascii "packet
-A
-{ 
-match
-k
-as
-n 
-{ [
-1 ,""bb""  , 007  , 
-""d""
-    , 5 
-, ""f""
-
-    ,
-
-    7
-
-, ""h""
-	, 9 ,""j""
-
-    ,
-    11  , 
-""l"" 
-]	:
-B,
-    2:
-C } ,
-
-} ")).
-Eval vm_compute in ("<<<M526>>>" ++ check (runes_of_ascii "packet uint8x
-{ match pack
-    as msg_type	{
-    0123456789 :	float
-}
-,
-} packet //	t
-a1
-    { } options {packetx
-    = '\x00'	; u128= ""a	b""  ; ; }
-")).
-Eval vm_compute in ("<<<M428>>>" ++ check (runes_of_ascii "packet uint8x
-{ match pack
-    as msg_type	}
-    0123456789 :	float
-}
-,
-} packet //	t
-a1
-    { } options {packetx
-    = '\x00'	; u128= ""a	b""  ; }
-")).
-Eval vm_compute in ("<<<M468>>>" ++ check (runes_of_ascii "packet uint8x
-{ match pack
-    as msg_type	{
-    0123456789 :	float
-}
-,
-} packet //	t
-,
-    { } options {packetx
-    = '\x00'	; u128= ""a	b""  ; }
-")).
-Eval vm_compute in ("<<<M410>>>" ++ check (runes_of_ascii "packet uint8x
-{ match 
-    as msg_type	{
-    0123456789 :	float
-}
-,
-} packet //	t
-a1
-    { } options {packetx
-    = '\x00'	; u128= ""a	b""  ; }
-")).
-Eval vm_compute in ("<<<M677>>>" ++ check (runes_of_ascii "// @lengthOf(
-packet i8i8 { u128 o , }
-options { MetaDataX = true;
-    BodyLength =""packet"" x_y_z 007 =
-crc //x
-= ""abc"" ;
-    msg_type =
-i16 }")).
-Eval vm_compute in ("<<<M699>>>" ++ check (runes_of_ascii "// @lengthOf(
-packet i8i8 { a" ++ [769]%N ++ runes_of_ascii "b o , }
-options { MetaDataX = true;
-    BodyLength =""packet"" x_y_z= 007
-crc //x
-= ""abc"" ;
-    msg_type =
-i16 }")).
-Eval vm_compute in ("<<<M716>>>" ++ check (runes_of_ascii "// @lengthOf(
-packet i8i8 { u128 o , }
- { MetaDataX = true;
-    BodyLength =""packet"" x_y_z= 007
-crc //x
-= ""abc"" ;
-    msg_type =
-i16 }")).
-Eval vm_compute in ("<<<M1776>>>" ++ check (runes_of_ascii "root packet u8x {
-}
-
-options {
-    o = zchar[1]
-    Packet = u32;
-    uint8x = ""a\\"";
-    /// triple
-    u8x = 0;
-    crc = ""\n"";
-}")).
-Eval vm_compute in ("<<<M1547>>>" ++ check (runes_of_ascii "MetaData leftPad {
-    chars MetaDataX,
-}
-
-packet repeatCount {
-    char[255] uint8x `" ++ [233]%N ++ runes_of_ascii "`,
-}
-
-MetaData pack {
-    As Foo,
-}")).
-Eval vm_compute in ("<<<M1152>>>" ++ check (runes_of_ascii "MetaData leftPad { chars MetaDataX
-// c
-, } packet repeatCount { char[ 255 ] uint8x `" ++ [233]%N ++ runes_of_ascii "` , } MetaData pack { As Foo , }")).
-Eval vm_compute in ("<<<M1184>>>" ++ check (runes_of_ascii "MetaData leftPad { chars MetaDataX , } packet repeatCount { char[ 255 ] uint8x `" ++ [233]%N ++ runes_of_ascii "` , } MetaData pack { As
-// c
-Foo , }")).
-Eval vm_compute in ("<<<M914>>>" ++ check (runes_of_ascii "packet A {
-  match k as n {
-    [""a"", ""bb"", 007, ""d"", ""e"", 66, ""g"", ""h"", 9, ""j"", ""k"", 12] : B,
-    2 : C
-  },
-}")).
-Eval vm_compute in ("<<<M142>>>" ++ check (runes_of_ascii "packet
-len
-    // " ++ [128512]%N ++ runes_of_ascii " emoji
-    { int64 a1	@lengthOf(x_y_z )	, }
-// c
-// trailing space 
-packet x_y_z { }
-
-")).
-Eval vm_compute in ("<<<M1716>>>" ++ check (runes_of_ascii "options {
-    _x = ""`tick`"";
-    matchKey = ""it's"";
-    options1 = u16;
-    stringy = true
-    // c
-}")).
-Eval vm_compute in ("<<<M855>>>" ++ check (runes_of_ascii "packet A {
-  match k as n {
-    [""a"", ""bb"", ""c c"", ""d"", ""e"", ""f"", ""g"", ""h""] : B
-    2 : C
-  },
-}")).
-Eval vm_compute in ("<<<M1527>>>" ++ check (runes_of_ascii "packet A {
-    match k as n {
-        [""a"", ""bb"", 007, ""d"", ""e""] : B,
-        2 : C,
-    },
-}")).
-Eval vm_compute in ("<<<M1493>>>" ++ check (runes_of_ascii "packet A
-    { 
-Inner { 
-u8  x `a
-    b
-  c`,  Deep
-
-{ u8  y 
-`a
-    b
-  c` , 
-}  ,
-
-}
-
-, }")).
-Eval vm_compute in ("<<<M849>>>" ++ check (runes_of_ascii "packet A {
-  match k as n {
-    [""a"", ""bb"", 007, ""d"", ""e"", 66, ""g""] : B,
-    2 : C
-  },
-}")).
-Eval vm_compute in ("<<<M1465>>>" ++ check (runes_of_ascii "packet A {
-    match k as n {
-        [1, 22, ""c c"", 4, 5] : B,
-        2 : C,
-    },
-}")).
-Eval vm_compute in ("<<<M647>>>" ++ check (runes_of_ascii "// @lengthOf(
-packet i8i8 { u128 o , }
-options { MetaDataX = true;
-    BodyLength =")).
-Eval vm_compute in ("<<<M824>>>" ++ check (runes_of_ascii "packet A {
-  match k as n {
-    [""a"", ""bb"", 007, ""d"", ""e""] : B
-    2 : C
-  },
-}")).
-Eval vm_compute in ("<<<M166>>>" ++ check (runes_of_ascii "packet calculatedFrom {repeat // packet A { u8 x, }
-string Foo`{ , }`	, }
-")).
-Eval vm_compute in ("<<<M1636>>>" ++ check (runes_of_ascii "
-options
-
-{
-	Logon	=	""" ++ [28040; 24687]%N ++ runes_of_ascii """ ;
-
-    BodyLength 
-=
-
-    false
+    } root packet pack{
+    uint64  Packet @calculatedFrom(	""\n""
+    )
+, }
+    options {	pack	=
+    ""// no comment"" //x
 ;
-    }
+body // " ++ [128512]%N ++ runes_of_ascii " emoji
+= ""a	b""
+;} // trailing space 
+packet Logon// trailing space 
+{ u8x{
+    // 50% %s
+    trueish
+@lengthOf(tag) `two words` , match body
+    // trailing space 
+    as
+int  {// trailing space 
+0 :i8i8 } ,
+    repeat uint8x o
+, } //	t
+,
+@tag(65535)
+int16 falsey, zchar[ 10] float `100% of %d`
+    , repeat
+    // packet A { u8 x, }
+    calculatedFrom
+`a\` , zchar[ 10]	crc
+@lengthOf(
+    repeatCount
+)
+`" ++ [28040; 24687; 31867; 22411]%N ++ runes_of_ascii "` , // `tick` ""quote"" 'q'
+match
+// trailing space 
+// " ++ [128512]%N ++ runes_of_ascii " emoji
+rootA as repeatCount  {
+3: crc
+""CRC32""
+    : //x
+x
+    //x
+    , 007
+    :A 7: chars
+    ,	[
+    007 ]: x ,  [
+    //x
+    007// " ++ [27880; 37322]%N ++ runes_of_ascii "
+, 255  ,""" ++ [28040; 24687]%N ++ runes_of_ascii """ , 42 ]: Z9_
+    , } ,  @tag(
+007//	t
+)
+repeat string len , int	, Foo  {
+match
+roots
+as
+    _x
+    { ""// no comment"" : o, [ 4294967296, """ ++ [233]%N ++ runes_of_ascii "t" ++ [233]%N ++ runes_of_ascii """ , 4294967296 , 7  , ""packet""
+,
+    3
+] : string_ ,""x y""// " ++ [27880; 37322]%N ++ runes_of_ascii "
+:float [ ""a\""b"" //x
+,
+""1""
+] // packet A { u8 x, }
+: zchar  ,}
+    , rootA { repeat metadata{ repeat
+char[
+    1 ] i64_
+`100% of %d`, match matchKey as stringy{ [ ""`tick`"" ] :x ,
+[
+    3 , 65535 ,255 ,  ""a\\"",""a\\"" , ""x y"" //x
+] : _x,} , }
+, }	,
+repeat char stringy ,
+    A `crlf
+line`
+, //	t
+}, @leftPad ( ) Header{	i32 asx @lengthOf(
+    lengthOf
+)
+,
+} , }
 ")).
-Eval vm_compute in ("<<<M851>>>" ++ check (runes_of_ascii "packet A { Inner { match k as n { [1,22,007,4,5,66,7] : B, }, }, }")).
-Eval vm_compute in ("<<<M1781>>>" ++ check (runes_of_ascii "packet A {
-    B {
-        // a
-        u8 x,// b
-    },// d
-}")).
-Eval vm_compute in ("<<<M1757>>>" ++ check (runes_of_ascii "packet A {
-    match k as n {
-        [1, 2] : B,
-    },
-}")).
-Eval vm_compute in ("<<<M1220>>>" ++ check (runes_of_ascii "packet body { i32 f32a `{ , }` , } options { }
-// c
+Eval vm_compute in ("<<<M320>>>" ++ check (runes_of_ascii "// @lengthOf(
+MetaData BodyLength{ u8x	u128 `a\` , }packet
+    // c
+    stringy  { } packet// " ++ [128512]%N ++ runes_of_ascii " emoji
+a1
+{i8 f32a
+    `
+`	,repeat  i64 len,@calculatedFrom( ""\" ++ [233]%N ++ runes_of_ascii """ ) string
+    leftPad
+`line1
+line2` , match a1
+as float { [ 007 , 3 ] : repeatCount, 3 /// triple
+: MetaDataX ""CRC32""
+    /// triple
+    : u128
+    // trailing space 
+    , [ ""a\""b"" ,""// no comment""
+]
+:roots,""\" ++ [233]%N ++ runes_of_ascii """: // c
+A}// packet A { u8 x, }
+, zchar[ 42]Pad,/// triple
+@calculatedFrom( """ ++ [233]%N ++ runes_of_ascii "t" ++ [233]%N ++ runes_of_ascii """) // `tick` ""quote"" 'q'
+match
+    chars	as// trailing space 
+string_
+{3 :
+options1 , } , uint32
+packetx
+    `` ,
+@tag(// 50% %s
+42) @tag( 1 ) /// triple
+@calculatedFrom( """ ++ [128512]%N ++ runes_of_ascii """ )
+_x`// not a comment` ,}root packet repeatCount {
+@leftPad (
+) char[ 0] x_y_z@calculatedFrom(""1"" //x
+),
+@rightPad ( ) char[] int
+, f64 // c
+asx ,	repeat Pad
+, match i64_
+as
+roots{
+[ ""1""
+    , ""packet""]
+    /// triple
+    :a1,""`tick`""  :
+    // c
+    trueish  , [3 ,	""\n"" // `tick` ""quote"" 'q'
+, ""`tick`"", ""it's"" , 10 ,
+""a\""b"" // a // b
+, ""CRC32"" // a // b
+]
+    //	t
+    : As, [ 10
+,
+10 ]: options1
+, ""CRC32"": a1
+,65535 :u
+    , // c
+} , @calculatedFrom( ""x y"" )
+@tag(255
+    )@tag( 1 )// c
+zchar[1 ] crc // " ++ [27880; 37322]%N ++ runes_of_ascii "
+`
+` , repeat u16 tag `crlf
+line` ,
+@leftPad (' ') roots
+@calculatedFrom(
+    //	t
+    """" )
+    ,}
+
 ")).
-Eval vm_compute in ("<<<M777>>>" ++ check (runes_of_ascii "packet A { Inner { match k as n { [1] : B, }, }, }")).
-Eval vm_compute in ("<<<M1715>>>" ++ check (runes_of_ascii "options {
-    trueish = '0';
-    a1 = u64;
-}")).
-Eval vm_compute in ("<<<M752>>>" ++ check (runes_of_ascii "repeatCount u32 as false uint64 0 @tag(")).
-Eval vm_compute in ("<<<M1662>>>" ++ check (runes_of_ascii "// top
-packet x {
-    // c2
+Eval vm_compute in ("<<<M1714>>>" ++ check (runes_of_ascii "options {
+    LittleEndian = true;
+    StringPrefixLenType = u16;
+    ArrayPrefixLenType = u8;
+    FixedStringPadChar = ' ';
 }
-// c3")).
-Eval vm_compute in ("<<<M1898>>>" ++ check (runes_of_ascii "packet A {
-    u8 x `d" ++ [12]%N ++ runes_of_ascii "`,// c" ++ [12]%N ++ runes_of_ascii "
-}")).
-Eval vm_compute in ("<<<M1058>>>" ++ check (runes_of_ascii "packet A {
- u8 x `d" ++ [6158]%N ++ runes_of_ascii "`, // c" ++ [6158]%N ++ runes_of_ascii "
-}")).
-Eval vm_compute in ("<<<M1448>>>" ++ check (runes_of_ascii "packet  f32a
 
-{
+packet Ack {
+    @leftPad(' ')
+    char[5] lastPx,
+    zchar[4] count,
+    repeat InVenue30 {
+        char[9] Side2,
+        char[12] venue,
+    },
+}
 
+packet Order {
+    int16 Note,
+    repeat InAcct28 {
+        InSym3 {
+            Ack,
+            char[4] lastPx,
+            char[1] venue,
+            f32 Ref,
+        },
+        repeat InTag729 {
+            char[3] Side2,
+            uint64 Acct,
+            char[] price,
+            zchar[9] Note,
+            zchar[9] venue,
+        },
+        char[] count,
+        Ack,
+        char[] Px,
+    },
+    u8 f1,
+    Ack,
+}
+
+packet Fill {
+    zchar[7] x,
+    Order,
+    @leftPad(' ')
+    char[9] venue,
+    string count,
+    char[] Flags,
+}
+
+packet Logon {
+}
+
+packet Reject {
+    Order,
+    char[] sym,
+}
+
+root packet Quote {
+    string price,
+    i64 Flags,
+    repeat Fill,
+    zchar[9] x,
+    f32 lastPx,
+    repeat Ack,
+}")).
+Eval vm_compute in ("<<<M28>>>" ++ check (runes_of_ascii "options {
+Foo =
+true ; len = '\x00'
+asx =
+'0' ; asx = // packet A { u8 x, }
+3 ;
+// " ++ [128512]%N ++ runes_of_ascii " emoji
+//
+} //	t
+packet	u128{
+    uint8 crc `doc`,
+    Z9_ ,repeat
+i8 roots,	@lengthOf( crc) repeat As `two words` , zchar[	007 ]
+    //x
+    tag `// not a comment` ,} packet pack// c
+{ string msg_type ,@calculatedFrom(	""""	)
+    repeat string
+tag`u8 x,`
+    ,int16 leftPad ,
+@tag(1
+    // " ++ [27880; 37322]%N ++ runes_of_ascii "
+    ) crc ,}
+/// triple
+// a // b
+root packet packetx {
+@rightPad
+(	'0'	) float64 o
+    // a // b
+    `two words`
+,
+repeat //	t
+string_
+    crc , i64
+    As`line1
+line2` ,@lengthOf( rootA //
+)
+u32
+Logon @lengthOf(a1
+) , @calculatedFrom(""""
+    ) @leftPad
+//x
+// @lengthOf(
+(' '
+) uint16 i8i8
+@calculatedFrom( ""// no comment"") , repeat char[]a1
+, u128 {
+// packet A { u8 x, }
+// trailing space 
+falsey @lengthOf( pack ) , int16
+packetx ,
+i64_ @calculatedFrom(""\" ++ [233]%N ++ runes_of_ascii """
+    ) `{ , }`
+    // " ++ [27880; 37322]%N ++ runes_of_ascii "
+    , int64 i8i8 `a\`,
     }
-
+, }")).
+Eval vm_compute in ("<<<M1380>>>" ++ check (runes_of_ascii "options {
+    ArrayPrefixLenType = u32;
+    FixedStringPadFromLeft = false;
+    FixedStringPadChar = '0';
+}
+packet Trade {
+    repeat InVenue78 {
+        u16 tag7,
+        repeat InLastpx9 {
+            u8 pad0,
+        },
+        int64 Tail,
+        repeat InQty37 {
+            char[2] OrderId,
+            zchar[6] lastPx,
+            int64 Qty,
+        },
+        uint8 Side2,
+    },
+}
+packet Logon {
+    repeat string venue,
+    @rightPad('\x00') char[3] sym,
+    zchar[9] count,
+    zchar[7] f1,
+    Trade,
+}
+packet Logout {
+}
+root packet Reject {
+    int32 sym,
+    u8 Px,
+    u32 Tail @lengthOf(Body),
+    match Px as Body {
+        184 : Trade,
+        173 : Logon,
+        12 : Logout,
+    },
+    u32 tag7 @calculatedFrom(""CRC32""),
+}
 ")).
-Eval vm_compute in ("<<<M1486>>>" ++ check (runes_of_ascii "// c" ++ [65279]%N ++ runes_of_ascii "
-	packet  A {
-} ")).
-Eval vm_compute in ("<<<M170>>>" ++ check (runes_of_ascii "packet pack
+Eval vm_compute in ("<<<M165>>>" ++ check (runes_of_ascii "packet Pad { match
+string_
+as
+// c
+// `tick` ""quote"" 'q'
+asx
+{ 7 : len 3 : lengthOf
+,[1
+    ]:
+charz
+""{,}""
+:
+    string_
+, ""\n"" :
+tag	,}
+    , @calculatedFrom( ""a	b"" )
+// packet A { u8 x, }
+// " ++ [128512]%N ++ runes_of_ascii " emoji
+i16 calculatedFrom `it's` ,
+@tag(10	) repeat
+    // packet A { u8 x, }
+    o {
+    repeat
+    char[] o  `say ""hi""` ,
+int @calculatedFrom(	""a\\"" ) , Foo { repeat T {f32
+    /// triple
+    A @lengthOf( charz
+) ,  Logon @lengthOf( // c
+pack
+)`a\` ,
+    }
+    , }	,
+// " ++ [128512]%N ++ runes_of_ascii " emoji
+//
+}, } options
+    { i64_=uint32 // trailing space 
+;	falsey = ""a	b"" ; BodyLength
+/// triple
+// c
+=
+'0' ;
+    lengthOf
+    = """ ++ [28040; 24687]%N ++ runes_of_ascii """ ; repeatCount=
+    // @lengthOf(
+    u64}
+")).
+Eval vm_compute in ("<<<M25>>>" ++ check (runes_of_ascii "
+packet float// @lengthOf(
+{
+}
+root packet Foo
+    { @calculatedFrom(
+""\" ++ [233]%N ++ runes_of_ascii """ )char[ 7] u128
+    ,
+@calculatedFrom(	""1"") repeat
+    char[3] u `100% of %d`,  u128
+    // " ++ [27880; 37322]%N ++ runes_of_ascii "
+    ,
+@tag( 3 ) char[
+3 ] rootA
+`two words` //x
+, @leftPad() metadata  @lengthOf( //x
+leftPad) ,
+string
+    // 50% %s
+    i8i8@calculatedFrom(""{,}""
+)
+,repeat int32 T , @calculatedFrom(
+""abc""
+    )@lengthOf( options1
+)	@lengthOf(options1 ) match
+    T// " ++ [27880; 37322]%N ++ runes_of_ascii "
+as body// a // b
+{
+    ""{,}""
+// `tick` ""quote"" 'q'
+//	t
+:
+// packet A { u8 x, }
+//
+stringy
+    , } ,@lengthOf( Packet ) leftPad
+`tab	here`,  } 	 ")).
+Eval vm_compute in ("<<<M1434>>>" ++ check (runes_of_ascii "packet metadata {
+    Header u128,
+}
+
+packet zchar {
+    /// triple
+    @tag(4294967296)
+    @lengthOf(a1)
+    i8 _x `crlf
+    line`,
+    @lengthOf(_x)
+    match x_y_z as Packet {
+        0 : leftPad,
+        65535 : tag,
+        00 : leftPad,
+        ""a\\"" : Packet,
+        10 : o,
+        [""CRC32""] : float,
+    },
+    match stringy as calculatedFrom {
+        ""`tick`"" : rootA,
+        ""`tick`"" : asx,
+        3 : u128,
+    },
+    @lengthOf(msg_type)
+    @tag(10)
+    // 50% %s
+    repeatCount @lengthOf(string_) `a\`,
+}")).
+Eval vm_compute in ("<<<M181>>>" ++ check (runes_of_ascii "  packet // c
+_x{ calculatedFrom@lengthOf(
+roots  ) `it's` ,
+match
+metadata
+as BodyLength {	[
+    10 , 10, ""a\""b""
+    ,""""//	t
+,
+""\n""
+,// @lengthOf(
+""a\\"" ,	4294967296 ] : u,
+    },
+    repeat // trailing space 
+i64_
+    Packet// " ++ [128512]%N ++ runes_of_ascii " emoji
+`{ , }` // " ++ [27880; 37322]%N ++ runes_of_ascii "
+,// packet A { u8 x, }
+@tag(
+65535 )char[]
+float
+    `crlf
+line`,char[ 7]
+    /// triple
+    x @calculatedFrom(
+""{,}""
+)
+/// triple
+// a // b
+,
+    @leftPad ( )
+    u64 stringy
+    // c
+    @calculatedFrom( ""\" ++ [233]%N ++ runes_of_ascii """ ) , }packet A	{ }")).
+Eval vm_compute in ("<<<M13>>>" ++ check (runes_of_ascii "MetaData u128 {} MetaData a1 {}// " ++ [128512]%N ++ runes_of_ascii " emoji
+root packet o
+{
+char[ 10 ] stringy@lengthOf(
+/// triple
+// 50% %s
+Z9_ //	t
+) ,
+    match x_y_z as	stringy { 3 : float ,	} , @leftPad	(
+' ' )u128 {
+    repeat i32
+msg_type `it's` , x ,
+repeat char[ //
+65535 ] T
+, match  A as i8i8 { """ ++ [128512]%N ++ runes_of_ascii """ : Logon , },} , }MetaData x_y_z { // @lengthOf(
+options1 a1 , u8x  x_y_z
+`tab	here` ,	char MetaDataX , // " ++ [27880; 37322]%N ++ runes_of_ascii "
+zchar[ 65535
+    ] chars
+    , char[]
+crc`doc`	, }")).
+Eval vm_compute in ("<<<M1616>>>" ++ check (runes_of_ascii "root 	 // 50% %s
+  packet
+    u128
+{ 
+a1@calculatedFrom(""a\""b""
+)
+,
+}root
+packet
+
+pack
+	{ BodyLength
+@calculatedFrom( ""{,}"" 
+)`// not a comment` , //x
+uint8x ,
+	i64
+    rootA 
+,	@lengthOf( BodyLength
+	)string
+
+zchar 
+, // " ++ [128512]%N ++ runes_of_ascii " emoji
+  }packet
+
+    _x {
+
+    @tag(
+    7
+	) match	// @lengthOf(
+	trueish
+
+    as 
+packetx 
+{10: 
+Header
+    , 7
+:
+
+trueish
+    ""a\""b"" : 
+    // @lengthOf(
+
+// " ++ [27880; 37322]%N ++ runes_of_ascii "
+		pack	,} ,}")).
+Eval vm_compute in ("<<<M0>>>" ++ check (runes_of_ascii "packet leftPad// 50% %s
+{@tag(10 )@tag( 007) @lengthOf( a1 )repeat
+metadata , }
+    options
+{ // " ++ [128512]%N ++ runes_of_ascii " emoji
+lengthOf
+    // @lengthOf(
+    = """ ++ [128512]%N ++ runes_of_ascii """
+; }	packet
+T  {A
+    // " ++ [27880; 37322]%N ++ runes_of_ascii "
+    { tag
+@calculatedFrom(
+//
+// `tick` ""quote"" 'q'
+""abc""),}
+, @lengthOf(
+    matchKey ) string
+    Header @lengthOf(	metadata ) ,
+leftPad @calculatedFrom(""a\""b""
+    // trailing space 
+    )
+`tab	here` ,}")).
+Eval vm_compute in ("<<<M82>>>" ++ check (runes_of_ascii "packet stringy {  string
+    lengthOf  @calculatedFrom(""" ++ [128512]%N ++ runes_of_ascii """)
+, @lengthOf(MetaDataX) Logon
+{ string
+Pad`u8 x,` ,  } , // " ++ [128512]%N ++ runes_of_ascii " emoji
+@tag( 00	)
+@calculatedFrom(
+    """ ++ [28040; 24687]%N ++ runes_of_ascii """ )
+    repeat uint8 asx , @leftPad( '0'  ) @tag( 00 // c
+)
+    zchar[0 ]trueish `u8 x,` , Header @lengthOf(repeatCount )
+    ,} packet
+u128 {  } MetaData// trailing space 
+charz
+{ }")).
+Eval vm_compute in ("<<<M21>>>" ++ check (runes_of_ascii "options {
+// " ++ [27880; 37322]%N ++ runes_of_ascii "
+// " ++ [128512]%N ++ runes_of_ascii " emoji
+string_
+    =
+false ;	falsey
+    = char[ 4294967296
+// 50% %s
+// `tick` ""quote"" 'q'
+] ; }
+    packet zchar	{
+    match //	t
+float as
+    //x
+    len {
+    [ """ ++ [233]%N ++ runes_of_ascii "t" ++ [233]%N ++ runes_of_ascii """
+] : matchKey ,	3 :
+//	t
+// 50% %s
+u
+[ 4294967296,
+    ""1""
+] :zchar, } ,} MetaData T // packet A { u8 x, }
 {
 } 	 ")).
-Eval vm_compute in ("<<<M1002>>>" ++ check (runes_of_ascii "// c" ++ [8192]%N ++ runes_of_ascii "
+Eval vm_compute in ("<<<M1808>>>" ++ check (runes_of_ascii "
+// top
+	options // c0
+    {  // c1a
+		// c1b
+    LittleEndian= 	 // c3
+		true
+
+    ;
+}// c6a
+    // c6b
+    root	// c7a
+  	// c7b
+	packet
+
+    // c8
+	P
+
+    {  
+  // c10
+	repeat  char
+    // c12
+
+  cs , 
+      // c14
+u8
+x // c16a
+	  // c16b
+      ,
+
+    // c17
+}
+")).
+Eval vm_compute in ("<<<M6>>>" ++ check (runes_of_ascii "packet
+rootA
+{ match	BodyLength as A
+{ 42: leftPad ,	1: u8x, [ 10 ,
+    //
+    """ ++ [128512]%N ++ runes_of_ascii """ ] : // trailing space 
+i8i8
+    7// " ++ [128512]%N ++ runes_of_ascii " emoji
+: u8x , 007: trueish,
+    // c
+    }, o uint8x , repeat
+zchar[
+7] //x
+pack ,
+string x_y_z@lengthOf(
+charz	)
+    `
+` , } // c")).
+Eval vm_compute in ("<<<M457>>>" ++ check (runes_of_ascii "packet
+    asx { @calculatedFrom(
+""""  ) @tag( 255 )repeat
+// packet A { u8 x, }
+// trailing space 
+int16 u8x
+,
+@tag(
+    //
+    007 007 )
+    @tag( 0
+    /// triple
+    ) @tag( 1) u
+    @lengthOf( T ),
+// `tick` ""quote"" 'q'
+//x
+} // " ++ [128512]%N ++ runes_of_ascii " emoji")).
+Eval vm_compute in ("<<<M538>>>" ++ check (runes_of_ascii "packet
+    asx { @calculatedFrom(
+""""  ) @tag( 255 )repeat
+// packet A { u8 x, }
+// trailing space 
+int16 ?u8x
+,
+@tag(
+    //
+    007 )
+    @tag( 0
+    /// triple
+    ) @tag( 1) u
+    @lengthOf( T ),
+// `tick` ""quote"" 'q'
+//x
+} // " ++ [128512]%N ++ runes_of_ascii " emoji")).
+Eval vm_compute in ("<<<M499>>>" ++ check (runes_of_ascii "packet
+    asx { @calculatedFrom(
+""""  ) @tag( 255 )repeat
+// packet A { u8 x, }
+// trailing space 
+int16 u8x
+,
+@tag(
+    //
+    007 )
+    @tag( 0
+    /// triple
+    ) @tag( 1) {
+    @lengthOf( T ),
+// `tick` ""quote"" 'q'
+//x
+} // " ++ [128512]%N ++ runes_of_ascii " emoji")).
+Eval vm_compute in ("<<<M441>>>" ++ check (runes_of_ascii "packet
+    asx { @calculatedFrom(
+""""  ) @tag( 255 )repeat
+// packet A { u8 x, }
+// trailing space 
+int16 
+,
+@tag(
+    //
+    007 )
+    @tag( 0
+    /// triple
+    ) @tag( 1) u
+    @lengthOf( T ),
+// `tick` ""quote"" 'q'
+//x
+} // " ++ [128512]%N ++ runes_of_ascii " emoji")).
+Eval vm_compute in ("<<<M15>>>" ++ check (runes_of_ascii "options{ x
+    = ""x y"";}
+options/// triple
+{ i8i8
+= 4294967296 crc =255
+// " ++ [128512]%N ++ runes_of_ascii " emoji
+// 50% %s
+; string_=	char[
+//x
+// a // b
+255]u
+    =  '\x00';	BodyLength
+    ='0' } packet u {float32 pack // `tick` ""quote"" 'q'
+,
+}
+")).
+Eval vm_compute in ("<<<M1769>>>" ++ check (runes_of_ascii "packet A {
+    Inner {
+        u8 x `a
+                    b
+                  c`,
+        Deep {
+            u8 y `a
+                            b
+                          c`,
+        },
+    },
+}")).
+Eval vm_compute in ("<<<M667>>>" ++ check (runes_of_ascii "MetaData u
+    { } MetaData o
+{ float uint8x
+`100% of %d` ,repeatCount u8x, string_ leftPad
+, i32
+    Foo , int64 x `two words` , calculatedFrom calculatedFrom
+stringy `a\` ,
+}
+")).
+Eval vm_compute in ("<<<M1449>>>" ++ check (runes_of_ascii "packet A {
+    match k as n {
+        [
+            ""a"", ""bb"", ""c c"", ""d"", ""e"",
+            ""f"", ""g"", ""h"", ""i"", ""j"",
+            ""k""
+        ] : B,
+        2 : C,
+    },
+}")).
+Eval vm_compute in ("<<<M579>>>" ++ check (runes_of_ascii "MetaData u
+    { } MetaData o
+u32 float uint8x
+`100% of %d` ,repeatCount u8x, string_ leftPad
+, i32
+    Foo , int64 x `two words` , calculatedFrom
+stringy `a\` ,
+}
+")).
+Eval vm_compute in ("<<<M553>>>" ++ check (runes_of_ascii "MetaData {
+    u } MetaData o
+{ float uint8x
+`100% of %d` ,repeatCount u8x, string_ leftPad
+, i32
+    Foo , int64 x `two words` , calculatedFrom
+stringy `a\` ,
+}
+")).
+Eval vm_compute in ("<<<M1565>>>" ++ check (runes_of_ascii "packet A {
+    Inner {
+        match k as n {
+            [
+                1, 22, 007, 4, 5,
+                66, 7, 8, 9, 10
+            ] : B,
+        },
+    },
+}")).
+Eval vm_compute in ("<<<M676>>>" ++ check (runes_of_ascii "MetaData u
+    { } MetaData o
+{ float uint8x
+`100% of %d` ,repeatCount u8x, string_ leftPad
+, i32
+    Foo , int64 x `two words` , calculatedFrom
+stringy  ,
+}
+")).
+Eval vm_compute in ("<<<M1846>>>" ++ check (runes_of_ascii "packet A {
+    Inner {
+        match k as n {
+            [
+                1, 22, 007, 4, 5,
+                66, 7
+            ] : B,
+        },
+    },
+}")).
+Eval vm_compute in ("<<<M1762>>>" ++ check (runes_of_ascii "
+packet
+A
+{match k as
+
+n  { [
+	""a"" ,
+
+    ""bb"" ,
+
+    ""c c""
+    , ""d""
+    , 
+""e"" ,
+    ""f""
+
+    , ""g""  ,	""h""
+    ,""i""
+] : B	,
+	2  :
+C } ,}")).
+Eval vm_compute in ("<<<M153>>>" ++ check (runes_of_ascii "MetaData packetx { As packetx // @lengthOf(
+`it's` ,
+f64
+Foo ,u8x i64_ , u32
+    x `doc` // " ++ [27880; 37322]%N ++ runes_of_ascii "
+, int32 metadata , string _x
+    ,	}
+")).
+Eval vm_compute in ("<<<M1887>>>" ++ check (runes_of_ascii "packet A {
+    match k as n {
+        [
+            ""a"", 22, ""c c"", 4, ""e"",
+            66
+        ] : B,
+        2 : C,
+    },
+}")).
+Eval vm_compute in ("<<<M986>>>" ++ check (runes_of_ascii "packet A {
+    match k as n {
+        ""x\
+y"" : B,
+        [""x\
+y"", 1] : C,
+        [1,2,3,4,5,""x\
+y""] : D,
+    },
+}")).
+Eval vm_compute in ("<<<M1211>>>" ++ check (runes_of_ascii "options { } options { // c
+MetaDataX = char ; } MetaData Pad { i8 metadata , string stringy , int8 As `{ , }` , }")).
+Eval vm_compute in ("<<<M1243>>>" ++ check (runes_of_ascii "options { } options { MetaDataX = char ; } MetaData Pad { i8 metadata , string stringy , int8 As // c
+`{ , }` , }")).
+Eval vm_compute in ("<<<M878>>>" ++ check (runes_of_ascii "packet A {
+  match k as n {
+    [""a"", ""bb"", ""c c"", ""d"", ""e"", ""f"", ""g"", ""h"", ""i"", ""j""] : B,
+    2 : C
+  },
+}")).
+Eval vm_compute in ("<<<M865>>>" ++ check (runes_of_ascii "packet A {
+  match k as n {
+    [""a"", ""bb"", ""c c"", ""d"", ""e"", ""f"", ""g"", ""h"", ""i""] : B,
+    2 : C
+  },
+}")).
+Eval vm_compute in ("<<<M1914>>>" ++ check (runes_of_ascii "
+
+  packet
+
+    A{
+	Inner{
+
+    u8 
+x `x
+`
+
+    , Deep {
+	u8
+    y
+    `x
+`
+	,
+	}
+
+,  }  , }")).
+Eval vm_compute in ("<<<M356>>>" ++ check (runes_of_ascii "options{asx
+    // " ++ [128512]%N ++ runes_of_ascii " emoji
+    = char
+}
+options{  }
+    packet BodyLength {
+    a1 uint8x , }")).
+Eval vm_compute in ("<<<M872>>>" ++ check (runes_of_ascii "packet A {
+  match k as n {
+    [1, 22, ""c c"", 4, 5, ""f"", 7, 8, ""i""] : B
+    2 : C
+  },
+}")).
+Eval vm_compute in ("<<<M219>>>" ++ check (runes_of_ascii "packet u {Foo @lengthOf(
+    crc)`{ , }`
+//	t
+//x
+, @tag( /// triple
+007
+    ) o
+,
+}")).
+Eval vm_compute in ("<<<M828>>>" ++ check (runes_of_ascii "packet A {
+  match k as n {
+    [1, ""bb"", 007, ""d"", 5, ""f""] : B,
+    2 : C
+  },
+}")).
+Eval vm_compute in ("<<<M818>>>" ++ check (runes_of_ascii "packet A {
+  match k as n {
+    [""a"", 22, ""c c"", 4, ""e""] : B
+    2 : C
+  },
+}")).
+Eval vm_compute in ("<<<M1509>>>" ++ check (runes_of_ascii "
+packet
+A  {
+
+    B
+b`a
+b`
+,
+
+B
+`a
+b`
+
+,repeat	B  bs `a
+b`
+
+,
+
+}
+")).
+Eval vm_compute in ("<<<M976>>>" ++ check (runes_of_ascii "packet A {
+    B b `%%d%!`,
+    B `%%d%!`,
+    repeat B bs `%%d%!`,
+}")).
+Eval vm_compute in ("<<<M836>>>" ++ check (runes_of_ascii "packet A { Inner { match k as n { [1,22,007,4,5,66] : B, }, }, }")).
+Eval vm_compute in ("<<<M758>>>" ++ check (runes_of_ascii "`100% of %d` packet ] { match packet int32 repeat int16 = }")).
+Eval vm_compute in ("<<<M1916>>>" ++ check (runes_of_ascii "packet A {
+}
+
+packet B {
+}
+
+MetaData M {
+}
+
+options {
+}")).
+Eval vm_compute in ("<<<M91>>>" ++ check (runes_of_ascii "// c
+MetaData leftPad { msg_type As
+`{ , }`
+,}
+")).
+Eval vm_compute in ("<<<M1892>>>" ++ check (runes_of_ascii "
+root
+packet
+    A
+	{ u8 x 
+`a
+b`  ,
+}
+
+")).
+Eval vm_compute in ("<<<M1908>>>" ++ check (runes_of_ascii "
+
+  // c" ++ [133]%N ++ runes_of_ascii "
+      packet  A	{
+
+    }
+
+")).
+Eval vm_compute in ("<<<M1452>>>" ++ check (runes_of_ascii "  // c
+root
+
+    packet
+	a1
+
+{ } ")).
+Eval vm_compute in ("<<<M1513>>>" ++ check (runes_of_ascii "
+packet
+A
+    {
+u8
+
+x  `%` , } ")).
+Eval vm_compute in ("<<<M1007>>>" ++ check (runes_of_ascii "packet A {
+ u8 x `d" ++ [160]%N ++ runes_of_ascii "`, // c" ++ [160]%N ++ runes_of_ascii "
+}")).
+Eval vm_compute in ("<<<M1881>>>" ++ check (runes_of_ascii "packet
+	A{ u8
+x
+	`
+x` , 
+}
+
+")).
+Eval vm_compute in ("<<<M1815>>>" ++ check (runes_of_ascii "
+
+  options//	t
+
+	{ 
+}
+")).
+Eval vm_compute in ("<<<M1127>>>" ++ check (runes_of_ascii "MetaData tag
+// c
+{ }")).
+Eval vm_compute in ("<<<M1031>>>" ++ check (runes_of_ascii "// c" ++ [8232]%N ++ runes_of_ascii "
 packet A {
 }")).
-Eval vm_compute in ("<<<M571>>>" ++ check (runes_of_ascii "
-packet
-    asx {")).
-Eval vm_compute in ("<<<M409>>>" ++ check (runes_of_ascii "packet uint8x
-{")).
-Eval vm_compute in ("<<<M1487>>>" ++ check (runes_of_ascii "// " ++ [128512]%N ++ runes_of_ascii " emoji")).
-Eval vm_compute in ("<<<M726>>>" ++ check (runes_of_ascii "
-	 ")).
+Eval vm_compute in ("<<<M1013>>>" ++ check (runes_of_ascii "packet A {
+}// c" ++ [5760]%N)).
+Eval vm_compute in ("<<<M1091>>>" ++ check (runes_of_ascii "
+
+  packet A {}")).
+Eval vm_compute in ("<<<M754>>>" ++ check (runes_of_ascii "int64")).
+Eval vm_compute in ("<<<M725>>>" ++ check (runes_of_ascii "")).
